@@ -143,11 +143,14 @@ def directed_cases(ctx, n):
             kind['str_mixin'] = True
         word = dict(name='Word', bases=[], registered=True, kind=rng.choice(['str', 'userstring', 'yatimlstring']))
         inner = plain('Inner', [P('line_width', ('int',)), P('max_open_count', CM.t_opt(('int',)), default=None)])
+        part = plain('Part', [P('name', ('str',)), P('size', ('int',), default=1)])
+        part['extra'] = True        # `_yatiml_extra` has a default value in the generated signature
         raw = plain('Raw', [P('line_width', ('int',))], recognize=[('rattr', 'line-width', None)])
         holder = plain('Holder', [P('kind', ('cls', 'Kind')), P('style', ('cls', 'Inner')), P('word', ('cls', 'Word')),
                                   P('kinds', ('seq', 'list', ('cls', 'Kind'))),
-                                  P('styles', ('map', 'dict', ('str',), ('cls', 'Inner')))])
-        spec = [kind, word, inner, raw, holder]
+                                  P('styles', ('map', 'dict', ('str',), ('cls', 'Inner'))),
+                                  P('part', ('cls', 'Part')), P('mode', ('int',))])
+        spec = [kind, word, inner, raw, part, holder]
         try:
             doc = G.gen_doc(rng, spec, ('cls', 'Holder'))
 
@@ -159,6 +162,16 @@ def directed_cases(ctx, n):
                     return ('q', [dash(x) for x in d[1]], d[2])
                 return d
             doc = ('m', [(k, dash(v)) for k, v in doc[1]], doc[2])
+            # ints in every YAML 1.1 spelling; a Part that lacks its required key half of the time
+            pairs = []
+            for k, v in doc[1]:
+                if k[1] == 'mode':
+                    v = G.S(rng.choice(['017', '0o17', '0x1F', '1_000', '1:30', '-012', '0755', '15', '+17', '0b101']))
+                if k[1] == 'part' and rng.random() < 0.5:
+                    v = rng.choice([('m', [], None), ('m', [(G.S('size'), G.S('2'))], None),
+                                    ('m', [(G.S('other'), G.S('x'))], None)])
+                pairs.append((k, v))
+            doc = ('m', pairs, doc[2])
             if rng.random() < 0.3:
                 doc, _d = G.mutate(rng, doc, spec)
             c = L.build_case(rng, yaml, yatiml, spec, ('cls', 'Holder'), doc, ('directed',))
@@ -276,7 +289,8 @@ def explore(ctx):
             rng.shuffle(typed)
             others = [('rattr', p_['name'], ('cls', rng.choice(['Kind', 'Word', 'Inner', 'Raw'])))
                       for p_ in holder['params']]
-            ops = typed + typed[:2] + others[:3] + ops[:2]
+            ops = typed + typed[:2] + others[:3] + ops[:2] + [
+                (rng.choice(['rval', 'rvalnot']), 'mode', v) for v in rng.sample([15, 17, 31, 1000, 90, -10, -12, 493, 755, 5], 3)]
         py_type_of = c.model.py_type
         oracle = None
         try:
